@@ -235,16 +235,18 @@ func rbTagXML(t map[string]string) []byte {
 
 // rbWorld is the concrete instantiation of one case.
 type rbWorld struct {
-	cs      rbCase
-	bucket  string
-	key     string
-	srcKey  string
-	req     rbObj
-	src     rbObj
-	prior   rbObj
-	vids    [][2]string // (key, version id) of every version this case created, in creation order
-	infra   string      // a request got no reply at all (three attempts)
-	infraMu sync.Mutex
+	cs       rbCase
+	bucket   string
+	key      string
+	srcKey   string
+	decoyKey string      // copy encodings: the once-more-decoded spelling of srcKey, holding another object
+	warm     *s3c.Client // the client of the process that will serve the reads
+	req      rbObj
+	src      rbObj
+	prior    rbObj
+	vids     [][2]string // (key, version id) of every version this case created, in creation order
+	infra    string      // a request got no reply at all (three attempts)
+	infraMu  sync.Mutex
 }
 
 // retry repeats a request whose reply never arrived (timeout, reset): on a loaded machine a
@@ -317,6 +319,10 @@ func rbInstantiate(cs rbCase) *rbWorld {
 		w.src.tagsRaw = rbTagsRaw(w.src.tags)
 		if d.Enc.Kind == "copy-self" {
 			w.srcKey = w.key
+		} else if cs.Idx%2 == 1 {
+			// a source key with a literal, decodable escape in it
+			w.srcKey = tag + "-src/50%25off é+&="
+			w.decoyKey = tag + "-src/50%off é+&="
 		}
 	}
 	if d.Prior == "rich" {
@@ -413,6 +419,12 @@ func (w *rbWorld) upload(setup, cl *s3c.Client) (ack bool, refused string, err e
 			return false, "", err
 		}
 	}
+	// the process that will serve the reads has already seen the key (and the copy
+	// source) as they were BEFORE the upload under test: nothing it remembers may survive
+	if w.warm != nil && (w.prior.exists || d.Enc.Kind == "copy-self") {
+		HeadObject(w.warm, w.bucket, w.key)
+		GetObject(w.warm, w.bucket, w.key)
+	}
 	hdrs := rbBundleHeaders(w.req, true)
 	switch d.Enc.Kind {
 	case "multipart":
@@ -465,6 +477,19 @@ func (w *rbWorld) upload(setup, cl *s3c.Client) (ack bool, refused string, err e
 	case "copy", "copy-self":
 		if err := w.putPlain(setup, w.srcKey, w.src, true); err != nil {
 			return false, "", err
+		}
+		if w.decoyKey != "" {
+			// an unrelated object under the name the source key would have if it were
+			// percent-decoded once more
+			decoy := rbObj{exists: true, hasBody: true, body: Content("c01-decoy-"+w.key, len(w.src.body)+3),
+				hdr: map[string]string{}, meta: rbMeta("prior", "rich"), tags: rbTags("prior", "rich")}
+			decoy.tagsRaw = rbTagsRaw(decoy.tags)
+			if err := w.putPlain(setup, w.decoyKey, decoy, true); err != nil {
+				return false, "", err
+			}
+		}
+		if d.Enc.Kind == "copy-self" && w.warm != nil {
+			HeadObject(w.warm, w.bucket, w.key)
 		}
 		h := append([]s3c.KV{{K: "X-Amz-Metadata-Directive", V: d.Enc.Md}, {K: "X-Amz-Tagging-Directive", V: d.Enc.Td}}, hdrs...)
 		r := w.retry("CopyObject", func() *s3c.Resp { return CopyObject(cl, w.bucket, w.srcKey, w.bucket, w.key, h...) })
@@ -891,6 +916,9 @@ func (w *rbWorld) cleanup(cl *s3c.Client) {
 	DeleteObject(cl, w.bucket, w.key)
 	if w.src.exists && w.srcKey != w.key {
 		DeleteObject(cl, w.bucket, w.srcKey)
+		if w.decoyKey != "" {
+			DeleteObject(cl, w.bucket, w.decoyKey)
+		}
 	}
 }
 
@@ -1004,7 +1032,8 @@ func (e *rbEnv) run(c *core.Ctx, cases []rbCase, workers int, deadline time.Time
 	}
 	do := func(cs rbCase) pending {
 		w := rbInstantiate(cs)
-		setup, wr, _ := e.clients(cs)
+		setup, wr, rd := e.clients(cs)
+		w.warm = rd
 		ack, refused, err := w.upload(setup, wr)
 		if err != nil && w.infra == "" {
 			// the gateway answered the preparation of the case with an error
